@@ -1577,7 +1577,7 @@ class UnitQuaternion(Quaternion):
                     #print('*: pose x vector')
                     return base.qvmul(left._A, base.getvector(right, 3))
 
-                elif len(left) > 1 and base.isvector(right, 3):
+                else:
                     # pose array x vector
                     #print('*: pose array x vector')
                     return np.array([base.qvmul(x, v) for x in left._A]).T
